@@ -245,6 +245,200 @@ func doRedef(c *core.Ctx, k1, k2 *c13Case) bool {
 	return true
 }
 
+// ---- session family: definitions, redefinitions and uses spread over the inputs of one session, through the
+// top-level input path and through eval(); every use is checked against a small model of the macro table, and
+// (transparency) must print what it prints when the earlier pure uses are left out of the history.
+
+type c13Input struct {
+	src  string
+	pure bool // an observation only: defines nothing
+}
+
+var c13SessInputs = []c13Input{
+	{"dbl = macro(x) { quote(unquote(x) * 2) }", false},
+	{"dbl = macro(x) { quote(unquote(x) + 100) }", false},
+	{"inc = macro(x) { quote(unquote(x) + 1) }", false},
+	{"func dbl(x) { x * 3 }", false},
+	{"println(catch(dbl(5)))", true},
+	{"println(catch(inc(dbl(1))))", true},
+	{"println(catch(eval(\"dbl(7)\")))", true},
+	{"hh = func(n) { dbl(n + 1) }; println(catch(hh(1)))", false},
+	{"println(catch(eval(\"tri = macro(x) { quote(unquote(x) * 3) }; tri(2)\")))", false},
+	{"println(catch(hh(4)))", true},
+}
+
+// model of the session
+type c13Model struct {
+	dbl     int  // 0 none, 1 (*2), 2 (+100)
+	inc     bool // inc macro defined
+	dblFunc bool
+	hh      int // 0 undefined, 1 body n+1 * 2, 2 body n+1 + 100, 3 body calls dbl at run time
+}
+
+func (m *c13Model) dblOf(v int) (int, bool) {
+	switch {
+	case m.dbl == 1:
+		return v * 2, true
+	case m.dbl == 2:
+		return v + 100, true
+	case m.dblFunc:
+		return v * 3, true
+	}
+	return 0, false
+}
+
+// step returns the expected printed line ("" = nothing printed, "ERR" = a caught error map).
+func (m *c13Model) step(i int) string {
+	p := func(v int, ok bool) string {
+		if !ok {
+			return "ERR"
+		}
+		return fmt.Sprint(v)
+	}
+	switch i {
+	case 0:
+		m.dbl = 1
+	case 1:
+		m.dbl = 2
+	case 2:
+		m.inc = true
+	case 3:
+		m.dblFunc = true
+	case 4:
+		return p(m.dblOf(5))
+	case 5:
+		v, ok := m.dblOf(1)
+		if !ok || !m.inc {
+			return "ERR"
+		}
+		return p(v+1, true)
+	case 6:
+		return p(m.dblOf(7))
+	case 7:
+		switch m.dbl {
+		case 1:
+			m.hh = 1
+		case 2:
+			m.hh = 2
+		default:
+			m.hh = 3
+		}
+		return m.callHH(1)
+	case 8:
+		return "6"
+	case 9:
+		return m.callHH(4)
+	}
+	return ""
+}
+
+func (m *c13Model) callHH(n int) string {
+	switch m.hh {
+	case 0:
+		return "ERR"
+	case 1:
+		return fmt.Sprint((n + 1) * 2)
+	case 2:
+		return fmt.Sprint(n + 1 + 100)
+	}
+	// body calls dbl at run time: a function named dbl (macros are only expanded when the body was parsed)
+	if m.dblFunc {
+		return fmt.Sprint((n + 1) * 3)
+	}
+	return "ERR"
+}
+
+func c13SessRun(hist []int, noReg bool) []string {
+	x := newSess(sessCfg{noReg: noReg})
+	outs := make([]string, len(hist))
+	for k, i := range hist {
+		r := x.step(c13SessInputs[i].src)
+		o := strings.TrimSpace(r.out)
+		if nl := strings.IndexByte(o, '\n'); nl >= 0 {
+			o = o[:nl] // the printed line; what follows is the shown value of the input
+		}
+		if strings.HasPrefix(o, "{\"err\":true") {
+			o = "ERR"
+		} else if strings.HasPrefix(o, "{\"err\":false,\"value\":") {
+			o = strings.TrimSuffix(strings.TrimPrefix(o, "{\"err\":false,\"value\":"), "}")
+		}
+		if len(r.errs) > 0 {
+			o = "FAILED:" + errTemplate(r.errs[0])
+		}
+		outs[k] = o
+	}
+	return outs
+}
+
+func c13SessCheck(hist []int) *core.Viol {
+	cs := core.Case{Kind: "session", Data: c20Ints(hist)}
+	parts := make([]string, len(hist))
+	for k, i := range hist {
+		parts[k] = c13SessInputs[i].src
+	}
+	text := strings.Join(parts, " ;; ")
+	for _, noReg := range []bool{false, true} {
+		got := c13SessRun(hist, noReg)
+		m := &c13Model{}
+		for k, i := range hist {
+			want := m.step(i)
+			if want != "" && got[k] != want {
+				return &core.Viol{Class: "session:use-differs-from-model", Detail: fmt.Sprintf("input %d %q printed %q, expected %q (macro table: dbl=%d inc=%v func dbl=%v) in %s", k, c13SessInputs[i].src, got[k], want, m.dbl, m.inc, m.dblFunc, text), Case: cs, FindText: text}
+			}
+		}
+		// transparency: the last input prints the same when the earlier pure uses are dropped
+		last := len(hist) - 1
+		var red []int
+		for k, i := range hist {
+			if k == last || !c13SessInputs[i].pure {
+				red = append(red, i)
+			}
+		}
+		if len(red) < len(hist) {
+			g2 := c13SessRun(red, noReg)
+			if g2[len(red)-1] != got[last] {
+				return &core.Viol{Class: "session:earlier-use-changes-later-use", Detail: fmt.Sprintf("%q prints %q after %s, but %q without the earlier uses", c13SessInputs[hist[last]].src, got[last], text, g2[len(red)-1]), Case: cs, FindText: text}
+			}
+		}
+	}
+	return nil
+}
+
+func c13Session(c *core.Ctx, bounds *[]string) bool {
+	depth := 4
+	if !c.Quick() {
+		depth = 5
+	}
+	ok := enumTuples(len(c13SessInputs), depth, func(idx []int) bool {
+		if len(idx) == 0 {
+			return true
+		}
+		if c.P.Evals&0xff == 0 && c.Expired() {
+			return false
+		}
+		key := "session|" + c20Ints(idx)
+		if !c.MineNoDedup("session", key) {
+			return true
+		}
+		hist := append([]int{}, idx...)
+		var v *core.Viol
+		if c13SessCheck(hist) != nil {
+			v = c.Run(func() *core.Viol { return c13SessCheck(hist) })
+		}
+		out := "session-exact"
+		if v != nil {
+			out = v.Class
+		}
+		c.Count("session: "+key, out, true)
+		c.P.Traces++
+		return true
+	})
+	if ok {
+		*bounds = append(*bounds, fmt.Sprintf("sessions: every history of <=%d inputs over %d (two definitions of one macro, a second macro, a function of the same name, uses at top level / nested in another macro's argument / through eval() / inside a function defined then / a macro defined and used inside one eval string): every use checked against a model of the macro table and against the same history without the earlier uses", depth, len(c13SessInputs)))
+	}
+	return ok
+}
+
 func c13Templates(maxSize int) []string {
 	cfg := gen.Cfg{
 		Leaves: []string{"unquote(x)", "unquote(y)", "1", "v"},
@@ -415,6 +609,9 @@ func runC13(c *core.Ctx) {
 		}
 		bounds = append(bounds, "macros with 0..4 parameters, every usage vector in {0..3}^k, 3 template shapes, 4 argument rotations, used twice")
 	}
+	if ok {
+		ok = c13Session(c, &bounds)
+	}
 	c.P.States = c.P.Traces
 	c.P.Bound = strings.Join(bounds, "; ")
 }
@@ -430,6 +627,9 @@ func init() {
 		HangLimit:   60 * time.Second,
 		Run:         runC13,
 		Replay: func(c *core.Ctx, cs core.Case) *core.Viol {
+			if cs.Kind == "session" {
+				return c13SessCheck(parseInts(cs.Data))
+			}
 			var j c13JSON
 			if err := json.Unmarshal([]byte(cs.Data), &j); err != nil {
 				return &core.Viol{Class: "bad-replay", Detail: err.Error(), Case: cs}
